@@ -21,7 +21,11 @@ func (td TypeDeclaration) HoverAtPos(ctx context.Context, pos hcl.Pos) *lang.Hov
 		}
 
 		if eType.Range().ContainsPos(pos) {
-			typ, _ := typeexpr.TypeConstraint(eType)
+			typ, diags := typeexpr.TypeConstraint(eType)
+			if len(diags) > 0 {
+				// not a type
+				return nil
+			}
 			content, err := hoverContentForType(typ, 0)
 			if err != nil {
 				return nil
